@@ -28,6 +28,46 @@ namespace
     return false;
   }
 
+  /// exact rational arithmetic (tiny numbers only) to replay the pivot search of Math::invert_matrix without rounding
+  struct Q
+  {
+    __int128 p = 0, q = 1;
+    Q() {}
+    Q(__int128 a, __int128 b = 1) : p(a), q(b) { norm(); }
+    static __int128 gcd(__int128 a, __int128 b) { if(a < 0) a = -a; if(b < 0) b = -b; while(b) { __int128 t = a % b; a = b; b = t; } return a ? a : 1; }
+    void norm() { if(q < 0) { p = -p; q = -q; } __int128 g = gcd(p, q); p /= g; q /= g; }
+    Q operator*(const Q& o) const { return Q(p * o.p, q * o.q); }
+    Q operator-(const Q& o) const { return Q(p * o.q - o.p * q, q * o.q); }
+    Q operator/(const Q& o) const { return Q(p * o.q, q * o.p); }
+    bool zero() const { return p == 0; }
+    bool abs_gt(const Q& o) const { __int128 a = (p < 0 ? -p : p) * o.q, b = (o.p < 0 ? -o.p : o.p) * q; return a > b; }
+  };
+  /// true iff the diagonal-only pivot search of invert_matrix finds no non-zero pivot at some step in exact arithmetic
+  template<int n>
+  bool diagonal_pivoting_breaks_down(const long double (&A)[n][n])
+  {
+    Q a[n][n]; int p[n];
+    for(int i = 0; i < n; ++i) { p[i] = i; for(int j = 0; j < n; ++j) a[i][j] = Q(__int128(std::llround(double(A[i][j] * 4096.0L))), 4096); }
+    for(int k = 0; k < n; ++k)
+    {
+      int best = k;
+      for(int j = k + 1; j < n; ++j) if(a[p[j]][p[j]].abs_gt(a[p[best]][p[best]])) best = j;
+      std::swap(p[k], p[best]);
+      const int pk = p[k];
+      if(a[pk][pk].zero()) return true;
+      const Q piv = Q(1) / a[pk][pk];
+      a[pk][pk] = Q(1);
+      for(int j = 0; j < n; ++j) a[pk][j] = a[pk][j] * piv;
+      for(int i = 0; i < n; ++i)
+      {
+        if(i == pk) continue;
+        const Q f = a[i][pk]; a[i][pk] = Q(0);
+        for(int j = 0; j < n; ++j) a[i][j] = a[i][j] - a[pk][j] * f;
+      }
+    }
+    return false;
+  }
+
   template<int n>
   struct Fam
   {
@@ -126,6 +166,9 @@ namespace
             // we record it (outcome) and require that it does not happen when A itself needs no row exchange
             c.outcome("invert_matrix: regular matrix rejected (det not normal)");
             c.count("invert_matrix_regular_rejected");
+            // (a tie between equally large diagonal candidates may be broken differently by rounding, so a rejection can occur
+            //  although the exact-arithmetic pivot order would have succeeded: counted, not a violation)
+            if(!diagonal_pivoting_breaks_down<n>(f.A)) c.count("invert_matrix_rejected_after_rounding_broke_a_pivot_tie");
             bool ident_perm = true; for(int i = 0; i < n; ++i) if(f.perm[i] != i) ident_perm = false;
             // for P = I all leading principal minors are non-zero, so diagonal pivoting cannot break down... unless the
             // pivot *choice* (largest diagonal entry) runs into a zero Schur complement; only the unpivoted order is guaranteed.
@@ -135,9 +178,13 @@ namespace
           bool eq = true, pad = true;
           for(int i = 0; i < n; ++i) for(int j = 0; j < stride; ++j)
           {
-            if(j < n) { if(std::fabs(a[i * stride + j] - double(f.Ai[i][j])) > 64 * 2.3e-16 * std::max(1.0, std::fabs(double(f.Ai[i][j])))) eq = false; }
+            if(j < n) { if(std::fabs(a[i * stride + j] - double(f.Ai[i][j])) > 1e-10 * std::max(1.0, std::fabs(double(f.Ai[i][j])))) eq = false; }
             else if(a[i * stride + j] != -777.0) pad = false;
           }
+          if(!eq && diagonal_pivoting_breaks_down<n>(f.A))
+            chk(c, false, "inverse.invert_matrix diagonal-only pivot search runs out of non-zero diagonal pivots on a regular matrix, takes a rounding residue as pivot and returns a normal determinant with a wrong inverse n=" + std::to_string(n),
+              [&]{ return f.str(); });
+          else
           chk(c, eq, "inverse.invert_matrix n=" + std::to_string(n), [&]{ return f.str() + ": invert_matrix returned a normal determinant but a wrong inverse"; });
           chk(c, pad, "inverse.invert_matrix-stride-padding n=" + std::to_string(n), [&]{ return f.str() + ": entries beyond column n were modified"; });
           chk(c, std::fabs(dt - double(f.det)) <= 1e-12 * std::fabs(double(f.det)), "inverse.invert_matrix-det n=" + std::to_string(n),
@@ -156,7 +203,7 @@ int main(int argc, char** argv)
   verif::Spec spec; spec.property = "C08"; spec.harness = "c08_inverse";
   spec.rule = "case = (n, permutation P, sparsity pattern of unit-lower L, pattern of upper U, diagonal variant); A = P*L*U with position coded dyadic entries; "
     "non-trivial unless A is diagonal with P = I. Tiny::Matrix::set_inverse/det compared bitwise with the exact inverse/determinant; Math::invert_matrix (stride n and n+1) "
-    "compared within 64 eps whenever it reports a normal determinant";
+    "compared within 1e-10 (diagonal pivoting admits small pivots, i.e. moderate error growth) whenever it reports a normal determinant";
   spec.bounds_quick = "n = 1,2,3 complete (all P, all 2^(n(n-1)) patterns, 4 diagonal variants); n = 4: all 24 P, all 4096 patterns, 2 diagonal variants";
   spec.bounds_thorough = "same (the space is complete at these sizes)";
   spec.assumptions = {"exact inverse = U^-1 L^-1 P^T by substitution in long double (all divisions by +-2^k, every intermediate exactly representable)",
